@@ -754,3 +754,258 @@ package sdf
 //@ end
 
 // END GENERATED SHAPES
+
+//-----------------------------------------------------------------------------
+// C02: each combinator denotes the operation it names (value at every point,
+// operands abstract).
+
+//@ spec elong(x real, h real) = x - max(-abs(h)/2, min(x, abs(h)/2))
+//@ spec rcomb(a real, b real) = sqrt(sq(max(a, 0)) + sq(max(b, 0))) + min(max(a, b), 0)
+//@ spec clamp01(x real) = max(0, min(x, 1))
+
+//@ func Difference3D
+//@   property C02
+//@   id denotes
+//@   forall p v3.Vec
+//@   let d = r.Evaluate(p)
+//@   ensures [is-max-a-minus-b] d == max(s0.Evaluate(p), -s1.Evaluate(p))
+//@ end
+
+//@ func Difference3D
+//@   property C02
+//@   id nil-subtrahend
+//@   nil s1
+//@   ensures [returns-minuend] r == s0
+//@ end
+
+//@ func Difference3D
+//@   property C02
+//@   id nil-minuend
+//@   nil s0
+//@   ensures [returns-nil] isnil(r)
+//@ end
+
+//@ func Difference2D
+//@   property C02
+//@   id denotes
+//@   forall p v2.Vec
+//@   let d = r.Evaluate(p)
+//@   ensures [is-max-a-minus-b] d == max(s0.Evaluate(p), -s1.Evaluate(p))
+//@ end
+
+//@ func Difference2D
+//@   property C02
+//@   id nil-subtrahend
+//@   nil s1
+//@   ensures [returns-minuend] r == s0
+//@ end
+
+//@ func Intersect3D
+//@   property C02
+//@   id denotes
+//@   forall p v3.Vec
+//@   let d = r.Evaluate(p)
+//@   ensures [is-max] d == max(s0.Evaluate(p), s1.Evaluate(p))
+//@ end
+
+//@ func Intersect3D
+//@   property C02
+//@   id nil-operand
+//@   nil s1
+//@   ensures [returns-nil] isnil(r)
+//@ end
+
+//@ func Intersect2D
+//@   property C02
+//@   id denotes
+//@   forall p v2.Vec
+//@   let d = r.Evaluate(p)
+//@   ensures [is-max] d == max(s0.Evaluate(p), s1.Evaluate(p))
+//@ end
+
+//@ func Transform3D
+//@   property C02
+//@   id denotes
+//@   forall q v3.Vec
+//@   requires matrix.Determinant() != 0
+//@   requires matrix[12] == 0 && matrix[13] == 0 && matrix[14] == 0 && matrix[15] == 1
+//@   let e = r.inverse.MulPosition(matrix.MulPosition(q))
+//@   assert [inverse-undoes-matrix] e == q
+//@   let d = r.Evaluate(matrix.MulPosition(q))
+//@   ensures [operand-at-preimage] d == sdf.Evaluate(q)
+//@ end
+
+//@ func Transform2D
+//@   property C02
+//@   id denotes
+//@   forall q v2.Vec
+//@   requires m.Determinant() != 0
+//@   requires m[6] == 0 && m[7] == 0 && m[8] == 1
+//@   let e = r.mInv.MulPosition(m.MulPosition(q))
+//@   assert [inverse-undoes-matrix] e == q
+//@   let d = r.Evaluate(m.MulPosition(q))
+//@   ensures [operand-at-preimage] d == sdf.Evaluate(q)
+//@ end
+
+//@ func ScaleUniform3D
+//@   property C02
+//@   id denotes
+//@   forall q v3.Vec
+//@   requires k > 0
+//@   let d = r.Evaluate(q.MulScalar(k))
+//@   ensures [distance-scales-by-k] d == k*sdf.Evaluate(q)
+//@ end
+
+//@ func ScaleUniform2D
+//@   property C02
+//@   id denotes
+//@   forall q v2.Vec
+//@   requires k > 0
+//@   let d = r.Evaluate(q.MulScalar(k))
+//@   ensures [distance-scales-by-k] d == k*sdf.Evaluate(q)
+//@ end
+
+//@ func Elongate3D
+//@   property C02
+//@   id denotes
+//@   forall p v3.Vec
+//@   let d = r.Evaluate(p)
+//@   ensures [operand-at-p-minus-clamp] d == sdf.Evaluate(v3.Vec{elong(p.X, h.X), elong(p.Y, h.Y), elong(p.Z, h.Z)})
+//@ end
+
+//@ func Elongate2D
+//@   property C02
+//@   id denotes
+//@   forall p v2.Vec
+//@   let d = r.Evaluate(p)
+//@   ensures [operand-at-p-minus-clamp] d == sdf.Evaluate(v2.Vec{elong(p.X, h.X), elong(p.Y, h.Y)})
+//@ end
+
+//@ func Cut3D
+//@   property C02
+//@   id denotes
+//@   forall p v3.Vec
+//@   requires n.X*n.X + n.Y*n.Y + n.Z*n.Z > 0
+//@   let d = r.Evaluate(p)
+//@   ensures [keeps-normal-side] d == max(-(p.Sub(a).Dot(n))/n.Length(), sdf.Evaluate(p))
+//@ end
+
+//@ func Cut2D
+//@   property C02
+//@   id denotes
+//@   forall p v2.Vec
+//@   requires v.X*v.X + v.Y*v.Y > 0
+//@   let d = r.Evaluate(p)
+//@   ensures [keeps-right-side] d == max(((p.Y-a.Y)*v.X - (p.X-a.X)*v.Y)/v.Length(), sdf.Evaluate(p))
+//@ end
+
+//@ func Offset3D
+//@   property C02
+//@   id denotes
+//@   forall p v3.Vec
+//@   let d = r.Evaluate(p)
+//@   ensures [distance-minus-offset] d == sdf.Evaluate(p) - offset
+//@ end
+
+//@ func Offset2D
+//@   property C02
+//@   id denotes
+//@   forall p v2.Vec
+//@   let d = r.Evaluate(p)
+//@   ensures [distance-minus-offset] d == sdf.Evaluate(p) - offset
+//@ end
+
+//@ func Shell3D
+//@   property C02
+//@   id denotes
+//@   forall p v3.Vec
+//@   let d = r.Evaluate(p)
+//@   ensures [abs-distance-minus-half-thickness] isnil(err) ==> d == abs(sdf.Evaluate(p)) - thickness/2
+//@ end
+
+//@ func Extrude3D
+//@   property C02
+//@   id denotes
+//@   forall p v3.Vec
+//@   let d = r.Evaluate(p)
+//@   ensures [profile-intersect-slab] d == max(sdf.Evaluate(v2.Vec{p.X, p.Y}), abs(p.Z) - height/2)
+//@ end
+
+//@ func TwistExtrude3D
+//@   property C02
+//@   id denotes
+//@   forall p v3.Vec
+//@   requires height > 0
+//@   let d = r.Evaluate(p)
+//@   ensures [profile-rotated-by-plus-z-twist-over-height] d == max(sdf.Evaluate(v2.Vec{cos(p.Z*(twist/height))*p.X - sin(p.Z*(twist/height))*p.Y, sin(p.Z*(twist/height))*p.X + cos(p.Z*(twist/height))*p.Y}), abs(p.Z) - height/2)
+//@ end
+
+//@ func ScaleExtrude3D
+//@   property C02
+//@   id denotes
+//@   forall p v3.Vec
+//@   requires height > 0 && scale.X > 0 && scale.Y > 0
+//@   let d = r.Evaluate(p)
+//@   ensures [profile-scaled-linearly-in-z] d == max(sdf.Evaluate(v2.Vec{p.X*sfac(scale.X, height, p.Z), p.Y*sfac(scale.Y, height, p.Z)}), abs(p.Z) - height/2)
+//@   ensures [scale-one-at-bottom] sfac(scale.X, height, -height/2) == 1 && sfac(scale.Y, height, -height/2) == 1
+//@   ensures [scale-at-top] sfac(scale.X, height, height/2) == 1/scale.X && sfac(scale.Y, height, height/2) == 1/scale.Y
+//@ end
+
+//@ func ScaleTwistExtrude3D
+//@   property C02
+//@   id denotes
+//@   forall p v3.Vec
+//@   requires height > 0 && scale.X > 0 && scale.Y > 0
+//@   let d = r.Evaluate(p)
+//@   ensures [scaled-then-twisted] d == max(sdf.Evaluate(v2.Vec{cos(p.Z*(twist/height))*(p.X*sfac(scale.X, height, p.Z)) - sin(p.Z*(twist/height))*(p.Y*sfac(scale.Y, height, p.Z)), sin(p.Z*(twist/height))*(p.X*sfac(scale.X, height, p.Z)) + cos(p.Z*(twist/height))*(p.Y*sfac(scale.Y, height, p.Z))}), abs(p.Z) - height/2)
+//@ end
+
+//@ func ExtrudeRounded3D
+//@   property C02
+//@   id denotes
+//@   forall p v3.Vec
+//@   requires round > 0
+//@   let d = r.Evaluate(p)
+//@   ensures [round-combine-minus-round] isnil(err) ==> d == rcomb(sdf.Evaluate(v2.Vec{p.X, p.Y}), abs(p.Z) - (height/2 - round)) - round
+//@ end
+
+//@ func Loft3D
+//@   property C02
+//@   id denotes
+//@   forall p v3.Vec
+//@   requires height > 2*round
+//@   let d = r.Evaluate(p)
+//@   ensures [mix-then-round-combine] isnil(err) ==> d == rcomb(sdf0.Evaluate(v2.Vec{p.X, p.Y}) + clamp01(0.5*p.Z/(height/2 - round) + 0.5)*(sdf1.Evaluate(v2.Vec{p.X, p.Y}) - sdf0.Evaluate(v2.Vec{p.X, p.Y})), abs(p.Z) - (height/2 - round)) - round
+//@ end
+
+//@ func Revolve3D
+//@   property C02
+//@   id denotes
+//@   forall p v3.Vec
+//@   let d = r.Evaluate(p)
+//@   ensures [profile-at-radius-and-height] isnil(err) ==> d == sdf.Evaluate(v2.Vec{sqrt(p.X*p.X + p.Y*p.Y), p.Z})
+//@ end
+
+//@ func RevolveTheta3D
+//@   property C02
+//@   id denotes
+//@   opt trig-quadrants
+//@   forall p v3.Vec
+//@   requires 0 < theta && theta < 2*PI
+//@   let d = r.Evaluate(p)
+//@   let a = sdf.Evaluate(v2.Vec{sqrt(p.X*p.X + p.Y*p.Y), p.Z})
+//@   ensures [acute-wedge-is-intersection-of-half-planes] isnil(err) && theta < PI ==> (d < 0 <==> a < 0 && p.Y > 0 && p.X*sin(theta) - p.Y*cos(theta) > 0)
+//@   ensures [reflex-wedge-is-union-of-half-planes] isnil(err) && theta >= PI ==> (d < 0 <==> a < 0 && (p.Y > 0 || p.X*sin(theta) - p.Y*cos(theta) > 0))
+//@ end
+
+//@ func Slice2D
+//@   property C02
+//@   id denotes
+//@   forall p v2.Vec
+//@   requires n.X*n.X + n.Y*n.Y + n.Z*n.Z > 0
+//@   let d = r.Evaluate(p)
+//@   ensures [operand-on-plane-point] d == sdf.Evaluate(a.Add(r.u.MulScalar(p.X)).Add(r.v.MulScalar(p.Y)))
+//@   ensures [axes-unit] r.u.Length2() == 1 && r.v.Length2() == 1
+//@   ensures [axes-orthogonal] r.u.Dot(r.v) == 0
+//@   ensures [axes-in-plane] r.u.Dot(n) == 0 && r.v.Dot(n) == 0
+//@ end
